@@ -703,6 +703,15 @@ func (x *Exec) convert(st *State, call *ast.CallExpr) Term {
 	c := x.c()
 	to := x.typeOf(call)
 	arg := call.Args[0]
+	// T(nil) for a slice, map or pointer type T is T's zero value
+	if id, ok := ast.Unparen(arg).(*ast.Ident); ok && id.Name == "nil" {
+		if _, isNil := x.info.Uses[id].(*types.Nil); isNil {
+			switch types.Unalias(to).Underlying().(type) {
+			case *types.Slice, *types.Map, *types.Pointer:
+				return c.zero(c.sortOf(to), to)
+			}
+		}
+	}
 	v := x.expr(st, arg)
 	from := x.typeOf(arg)
 	ts := c.sortOf(to)
